@@ -124,6 +124,8 @@ func (g *Group) verifDump() string {
 	sort.Strings(push)
 	fmt.Fprintf(&sb, " push%v", push)
 	fmt.Fprintf(&sb, " stat[v=%s a=%s %dx%d]", g.stat.VideoCodec, g.stat.AudioCodec, g.stat.VideoWidth, g.stat.VideoHeight)
+	// per-group timer state of the GB28181 input (the tick acts on it)
+	fmt.Fprintf(&sb, " pstimer[timeout=%d checked=%v]", g.psPubTimeoutSec, g.psPubPrevInactiveCheckTick != -1)
 	gop := func(name string, meta, vsh, ash bool, n int, at func(int) int) {
 		fmt.Fprintf(&sb, " gop-%s[m=%d v=%d a=%d", name, b2i(meta), b2i(vsh), b2i(ash))
 		for i := 0; i < n; i++ {
@@ -233,6 +235,22 @@ func VerifRelayActive(sm *ServerManager) (goroutines, pushAdds int) {
 
 // VerifRelayForget drops the accounting of a server (world closed).
 func VerifRelayForget(sm *ServerManager) { verifRelay.Delete(IGroupObserver(sm)) }
+
+// VerifPsCount: number of groups that hold a GB28181 publisher.
+func VerifPsCount(sm *ServerManager) int {
+	sm.mutex.Lock()
+	defer sm.mutex.Unlock()
+	n := 0
+	sm.groupManager.Iterate(func(g *Group) bool {
+		g.mutex.Lock()
+		if g.psPubSession != nil {
+			n++
+		}
+		g.mutex.Unlock()
+		return true
+	})
+	return n
+}
 
 // VerifPsPubSession / VerifRtspPubSession: the attached GB28181 / RTSP publisher of a stream.
 func VerifPsPubSession(sm *ServerManager, stream string) *gb28181.PubSession {
